@@ -5,12 +5,12 @@ go 1.21
 require (
 	github.com/anishathalye/porcupine v1.3.0
 	github.com/smarthome-go/homescript/v3 v3.0.0
+	golang.org/x/text v0.9.0
 )
 
 require (
 	github.com/agnivade/levenshtein v1.1.1 // indirect
 	github.com/davecgh/go-spew v1.1.1 // indirect
-	golang.org/x/text v0.9.0 // indirect
 )
 
 replace github.com/smarthome-go/homescript/v3 => /repo
